@@ -25,4 +25,20 @@ theorem mul_u64_of_lt {a b : Int} (h0 : 0 ≤ a * b) (h1 : a * b < 1844674407370
     mul (.u 64) a b = a * b := by
   unfold mul; exact wrap_u_of_lt h0 (by rw [two_pow_64]; exact h1)
 
+theorem pat_nat (b : Nat) (a : Nat) (h : a < 2 ^ b) : pat b (a : Int) = a := by
+  unfold pat two
+  have h2 : ((2:Int) ^ b) = ((2 ^ b : Nat) : Int) := by norm_cast
+  rw [h2, Int.emod_eq_of_lt (by omega) (by exact_mod_cast h)]
+  simp
+
+theorem band_u64_nat (a b : Nat) (ha : a < 2 ^ 64) (hb : b < 2 ^ 64) :
+    band (.u 64) (a : Int) (b : Int) = ((a &&& b : Nat) : Int) := by
+  unfold band Ty.bits
+  rw [pat_nat 64 a ha, pat_nat 64 b hb]
+  have hle : a &&& b ≤ a := Nat.and_le_left
+  show wrap (.u 64) ((a &&& b : Nat) : Int) = _
+  apply wrap_u_of_lt
+  · exact Int.natCast_nonneg _
+  · rw [two_pow_64]; omega
+
 end G
